@@ -19,6 +19,9 @@ import (
 	"go.nanomsg.org/mangos/v3/vh/kinds"
 	"go.nanomsg.org/mangos/v3/vh/kit"
 	"go.nanomsg.org/mangos/v3/vh/ledger"
+	_ "go.nanomsg.org/mangos/v3/vh/vipc"
+	"go.nanomsg.org/mangos/v3/vh/vnet"
+	_ "go.nanomsg.org/mangos/v3/transport/tcp"
 	"go.nanomsg.org/mangos/v3/vh/vt"
 	"go.nanomsg.org/mangos/v3/vz/vexplore"
 	"go.nanomsg.org/mangos/v3/vz/vsched"
@@ -45,6 +48,7 @@ func init() {
 			{Name: "fanout-survey-inproc", Mode: "sched", Bound: b, Cfg: pool, Reset: kit.ResetGlobals, Body: fanoutSurvey},
 			{Name: "req-retained-request-loss", Mode: "hist", Reset: kit.ResetGlobals, Body: reqRetained},
 			{Name: "pub-pipe-fails-mid-send", Mode: "sched", Bound: b, Reset: kit.ResetGlobals, Body: pubPipeFails},
+			{Name: "fanout-stream-write-error", Mode: "sched", Bound: b - 1, Reset: kit.ResetGlobals, Body: streamWriteError},
 		}
 		return out
 	})
@@ -150,9 +154,13 @@ func sendOutcomes() {
 	k := ks[kit.ChooseFree(len(ks))]
 	outcome := []string{"ok", "timeout", "closed", "nopeers", "besteffort"}[kit.ChooseFree(5)]
 	ledger.Install()
-	x := k.Open("c17s", outcome != "nopeers", true)
+	var x *kinds.Sock
+	if outcome == "nopeers" {
+		x = k.Open("c17s", false, true)
+	} else {
+		x = k.OpenQ("c17s", true, 1)
+	}
 	x.Quiet()
-	_ = x.S.SetOption(mangos.OptionWriteQLen, 1)
 	body := payload("msg", 100)
 	intact := func(m *mangos.Message, err error, what string) {
 		if err == nil {
@@ -566,3 +574,64 @@ func pubPipeFails() {
 }
 
 var _ = rep.NewSocket
+
+// streamWriteError: fan-out over the real stream pipes (transport/conn.go over the in-memory
+// network, TCP and IPC framing): one subscriber's connection is stalled and then reset while
+// publications shared with the other subscriber are queued for it.  The failed write must release
+// exactly the failing pipe's reference; the other subscriber still gets every byte.
+func streamWriteError() {
+	scheme := []string{"tcp", "vipc"}[kit.ChooseFree(2)]
+	fan := []func() (mangos.Socket, error){pub.NewSocket, bus.NewSocket}[kit.ChooseFree(2)]
+	ledger.Install()
+	s, err := fan()
+	must(err, "NewSocket")
+	addr := "127.0.0.1:4400"
+	must(s.Listen(scheme+"://"+addr), "Listen")
+	ep := net.VGet(addr)
+	hdr := []byte{0, 'S', 'P', 0, byte(s.Info().Peer >> 8), byte(s.Info().Peer), 0, 0}
+	a, b := ep.Connect(), ep.Connect()
+	a.Feed(hdr)
+	b.Feed(hdr)
+	kit.Quiesce()
+	a.StallWrites(true)
+	var want []byte
+	want = append(want, 0, 'S', 'P', 0, byte(s.Info().Self>>8), byte(s.Info().Self), 0, 0)
+	for i := 0; i < 3; i++ {
+		body := payload(fmt.Sprintf("pub%d", i), 90+i*40)
+		must(s.Send([]byte(body)), "Send")
+		var pre []byte
+		if scheme == "vipc" {
+			pre = append(pre, 1)
+		}
+		pre = append(pre, 0, 0, 0, 0, 0, 0, 0, byte(len(body)))
+		want = append(want, pre...)
+		want = append(want, body...)
+	}
+	kit.Quiesce()
+	a.Reset() // the stalled write fails now
+	kit.Quiesce()
+	// traffic of the same size classes reuses whatever was released
+	for i := 0; i < 2; i++ {
+		m := mangos.NewMessage(100)
+		m.Body = append(m.Body, bytes.Repeat([]byte{'Z'}, 100)...)
+		m.Free()
+	}
+	if got := b.Written(); !bytes.Equal(got, want) {
+		kit.Failf("survivor-bytes-differ", "%s: the surviving subscriber received %d bytes, want %d (first difference at %d)", scheme, len(got), len(want), firstDiff(got, want))
+	}
+	kit.Must("Close", func() { _ = s.Close() })
+	kit.Quiesce()
+	kit.Observe("%s", scheme)
+}
+
+func firstDiff(a, b []byte) int {
+	for i := 0; i < len(a) && i < len(b); i++ {
+		if a[i] != b[i] {
+			return i
+		}
+	}
+	if len(a) < len(b) {
+		return len(a)
+	}
+	return len(b)
+}
